@@ -18,6 +18,12 @@ def rerun(ctx, case_lines):
     return h1common.rerun_h1srv(ctx, case_lines)
 
 
+def rerun_hist(ctx, seq):
+    if json.loads(seq[-1][0]).get("loose"):
+        return h1common.rerun_h1srv_hist(ctx, seq, module="H1RejectTrace", cfg="H1RejectTrace.cfg")
+    return h1common.rerun_h1srv_hist(ctx, seq)
+
+
 def run(ctx):
     drv = lib.go_build("h1srv")
     h1common.spec_h1server(ctx)
